@@ -86,6 +86,9 @@ def run_case(case, ctx):
     perm = rng.integers(0, N, size=min(2 * N, 12))
     shuffled = sp[perm].clone()
     single = sp[int(rng.integers(0, N))].clone().unsqueeze(0)
+    # batches whose length coincides with the size of the real-pair axis (2) or of small internal axes (3)
+    pperm, tperm = rng.integers(0, N, size=2), rng.integers(0, N, size=3)
+    pair, triple = sp[pperm.tolist()].clone(), sp[tperm.tolist()].clone()
     # all rows distinct, in no particular order (a de-duplicated data set), held as a strided / column-major / sliced view
     dperm = rng.permutation(N)[:max(2, int(rng.integers(2, N + 1)))] if N > 1 else np.array([0])
     distinct, dform = gen.memory_form(sp[dperm.tolist()].clone(), rng)
@@ -136,7 +139,8 @@ def run_case(case, ctx):
                               f"{got!r}, Tr(rho O)/Tr(rho) = {want!r} (|diff| {abs(got-want):.3e}, tol {tau*max(scale, abs(want)):.1e})",
                               tags=dict(tags, obs=name.split("(")[0]), witness=wit)
         # other batch shapes give the same per-row values
-        for bname, batch, rows in (("shuffled", shuffled, perm), ("single", single, None), ("distinct rows, unordered, " + dform, distinct, dperm)):
+        for bname, batch, rows in (("shuffled", shuffled, perm), ("single", single, None), ("distinct rows, unordered, " + dform, distinct, dperm),
+                                   ("pair", pair, pperm), ("three rows", triple, tperm)):
             bk = batch.clone()
             vb = ctx.lib(f"{name}.apply({bname})", ob.apply, st, batch, tags=dict(tags, obs=name.split("(")[0]))
             ctx.count("batch_consistency_checks")
